@@ -81,6 +81,10 @@ def c04(ctx):
     rep.rule("C04.R6", "ERRFLOW over src/exec: no runtime error is swallowed, so an error ends execution at that statement")
     rep.rule("C04.R7", "a pending exit is always looked at: every construct reachable from exec::exec that executes statements or blocks of an "
              "ExecStmt repeatedly (CFG cycle, or closure handed to an iterator combinator) inspects control_flow_state between two executions")
+    rep.rule("C04.R8", "the truth value that decides if / while / until is the language's truthiness: is_truthy per value kind at term level "
+             "(mysterious, null -> false; boolean -> itself; number -> n != 0; string, array -> true)")
+    from . import c03 as _c03
+    _c03.truthy_terms(ctx, "C04.R8")
     em = inherent_methods(F, EXEC)
     vb = find_method(F, VP, "visit_block", EXEC)
     if vb is None or not em:
